@@ -56,3 +56,50 @@ def gen_conc(seed, idx):
         steps.append(step)
     steps.append({"op": "drain", "n": maxT + 6})
     return {"name": f"conc-{name}-{seed}-{idx}", "cfg": p.get("cfg", {}), "steps": steps, "complete": True}
+
+
+def gen_conc_role(seed, idx):
+    """Role changes RACING client requests (C10): a `par` phase holds a few requests and one role change of the node
+    as concurrently scheduled actors; the schedule decides whether a request's critical section runs before or
+    after the change.  The node is made leader again before the next phase."""
+    rng = random.Random(seed * 40503 % (2**31) + idx * 131 + 7)
+    p = dict(gen_core.profile(rng.choice(["mutex", "sem", "prio"]), rng))
+    p["timeouts"] = [0, 0, 1, 2, 3]
+    p["expireds"] = [1, 2, 3, 6, 30]
+    p["keys"] = rng.choice([[1], [1, 2]])
+    p["lids"] = [1, 2, 3]
+    steps = []
+    for ph in range(rng.randint(4, 9)):
+        for _ in range(rng.randint(0, 2)):
+            steps.append(gen_core._lock(rng, p) if rng.random() < 0.6 else gen_core._unlock(rng, p))
+        ops, used = [], set()
+        for _ in range(rng.randint(1, 3)):
+            if rng.random() < 0.65:
+                d = gen_core._lock(rng, p)
+                if (d["db"], d["key"], d["lid"]) in used:
+                    continue
+                used.add((d["db"], d["key"], d["lid"]))
+                ops.append(d)
+            else:
+                ops.append(gen_core._unlock(rng, p))
+        pos = rng.randint(0, len(ops))
+        ops.insert(pos, {"op": "status", "status": rng.choice([2, 3, 4, 5])})
+        if rng.random() < 0.5:
+            # every request first runs to its entry yield point, then the role change, then the rest
+            n = len(ops)
+            order = [i for i in range(n) if i != pos]
+            sched = []
+            ready = list(range(n))
+            for i in order:
+                sched.append(ready.index(i))
+            sched.append(ready.index(pos))
+            ready.remove(pos)
+            sched += [rng.randint(0, 5) for _ in range(rng.randint(4, 20))]
+        else:
+            sched = [rng.randint(0, 7) for _ in range(rng.randint(4, 30))]
+        steps.append({"op": "par", "ops": ops, "sched": sched})
+        if rng.random() < 0.5:
+            steps.append(gen_core._lock(rng, p) if rng.random() < 0.6 else gen_core._unlock(rng, p))
+        steps.append({"op": "status", "status": 1})
+    steps.append({"op": "drain", "n": 12})
+    return {"name": f"conc-role-{seed}-{idx}", "cfg": p.get("cfg", {}), "steps": steps, "complete": True}
